@@ -71,8 +71,43 @@ class FileScan(ast.NodeVisitor):
         self.generic_visit(node)
         self.stack.pop()
 
+    def seed_guards(self, fn):
+        """the test guarding every `seed = <drawn from np.random>` in configure_random_seed"""
+        def classify(test, in_else):
+            u = ast.unparse(test)
+            var = "seed"
+            if u in (f"{var} is None", f"{var} == None", f"None is {var}", f"None == {var}"):
+                return "GOtherGuard" if in_else else "GIsNone"
+            if u in (f"{var} is not None", f"{var} != None"):
+                return "GIsNone" if in_else else "GOtherGuard"
+            if u == f"not {var}":
+                return "GOtherGuard" if in_else else "GTruthiness"
+            if u == var:
+                return "GTruthiness" if in_else else "GOtherGuard"
+            return "GOtherGuard"
+
+        def draws(stmt):
+            return isinstance(stmt, ast.Assign) and any(ast.unparse(t) in ("seed", "self.seed") for t in stmt.targets) \
+                and any((self.resolve(n) or "").startswith("numpy.random.") for n in ast.walk(stmt.value)
+                        if isinstance(n, ast.Attribute))
+
+        def walk(stmts, guard):
+            for s_ in stmts:
+                if draws(s_):
+                    self.add("seedguard", guard or "GUnconditional", s_)
+                elif isinstance(s_, ast.If):
+                    inner = guard and "GOtherGuard"        # nested tests: no rule
+                    walk(s_.body, inner or classify(s_.test, False))
+                    walk(s_.orelse, inner or classify(s_.test, True))
+                elif isinstance(s_, (ast.For, ast.While, ast.With, ast.Try)):
+                    for blk in ("body", "orelse", "finalbody"):
+                        walk(getattr(s_, blk, []) or [], "GOtherGuard")
+        walk(fn.body, None)
+
     def visit_FunctionDef(self, node):
         self.stack.append(node.name)
+        if node.name == "configure_random_seed":
+            self.seed_guards(node)
         self.set_names.append(self.infer_set_names(node))
         self.generic_visit(node)
         self.set_names.pop()
@@ -313,6 +348,8 @@ def terms_of(entries):
             terms.append(f"EPoolRead {cstr(site)} {cstr(detail)}")
         elif kind == "poolwrite":
             terms.append(f"EPoolWrite {cstr(site)} {cstr(detail)}")
+        elif kind == "seedguard":
+            terms.append(f"ESeedGuard {cstr(site)} {detail}")
         elif kind == "seedcall":
             terms.append(f"ESeedCall {cstr(site)}")
     return terms
